@@ -1160,8 +1160,10 @@ impl VM {
                 if let Some(ptr) = result_ptr {
                     vm.ops.jump(*ptr)?;
                     decorate_call!(pos => vm.run(env))?;
-                    let (result_val, result_pos) = vm.pop()?;
-                    self.push(result_val, result_pos)?;
+                    // Like the result of a function call the module's result
+                    // belongs to the place where the module was instantiated.
+                    let (result_val, _) = vm.pop()?;
+                    self.push(result_val, pos)?;
                 } else {
                     self.push(Rc::new(vm.symbols_to_tuple(false)), pos)?;
                 }
